@@ -10,6 +10,7 @@ mod c06;
 mod c08;
 mod c10;
 mod c11;
+mod c13;
 mod c14;
 mod c15;
 mod c16;
@@ -40,6 +41,15 @@ fn main() {
                 false
             });
             eprintln!("{n} tokens");
+        }
+        // statements + catalogue queries for a REAL SQLite engine (executed by vlib/engine.py: python's sqlite3)
+        "engine-cases" => {
+            let prop = args.get(2).map(|s| s.as_str()).unwrap_or("");
+            let cases: Vec<String> = match prop {
+                "C13" => c13::cases().iter().map(|c| c.to_json()).collect(),
+                _ => { eprintln!("no engine cases for {prop}"); std::process::exit(2) }
+            };
+            for c in cases { println!("CASE {c}"); }
         }
         "search" => {
             let prop = args.get(2).map(|s| s.as_str()).unwrap_or("");
